@@ -1,24 +1,36 @@
 ---------------------------- MODULE MC_Methods ----------------------------
 (* C16: string / number / object methods, num() and json().  Algebraic laws *)
 (* over complete small domains, one vector per case:                        *)
-(*   str    every string of <= MaxLen symbols: length, upper, lower         *)
+(*   str    every string of <= CaseLen characters over an alphabet with     *)
+(*          cased letters of every kind: length, upper, lower               *)
+(*   casetab  the case table itself (for the harness's seeded strings)      *)
 (*   split  every such string x every separator of <= 2 symbols (+ empty)   *)
 (*   num    every k/4 with |k| <= 22, and +-2^53: floor, ceil, round        *)
 (*   pluck  every key set over {a,b,c} x every key list of length <= 3      *)
+(*   pluckw every key set x key list of length <= 2 x one write (= += -= ++ *)
+(*          -- prefix/postfix) to one key through the copy or the receiver  *)
 (*   proto  key lists that name a method of the object prototype            *)
 (*   numb   num() on the string universe of DESIGN.md 3.1                   *)
+(*   numbig num() on digit strings of every length up to 22 around the      *)
+(*          powers of two and ten, with signs, zeros, fractions, exponents   *)
 (*   call   every method / builtin x every receiver kind x argument lists   *)
 (*          outside the documented contract: "neutral value or a runtime    *)
 (*          error, never a crash"                                           *)
 EXTENDS JqValue
-CONSTANTS MaxLen
+CONSTANTS MaxLen, CaseLen
 
 E9 == <<"C3", "A9">>                               \* U+00E9 as its two UTF-8 bytes
 Symbols == {<<"a">>, <<"B">>, <<",">>, E9, <<" ">>}
 SymSeqs(n) == SeqsUpTo(Symbols, n)
 Bytes(ss) == FlattenSeq(ss)                        \* a symbol sequence as a byte string
 S(str) == VStr(Chars(str))
+\* the alphabet of the case-mapping family: ASCII, and non-ASCII characters of 2, 3 and 4 bytes with and without case
+CaseSymbols == {<<"a">>, <<"B">>, <<"1">>, E9, HB("C785"), HB("E285B7"), HB("E292B6"), HB("CD85"), HB("CF89"), HB("E4B896"), HB("F09090A8")}
+Caseless == {HB("E4B896"), HB("F09F9880")}                       \* U+4E16, U+1F600
+CaseSeqs(n) == SeqsUpTo(CaseSymbols, n)
 
+RECURSIVE SetSeq(_)
+SetSeq(T) == IF T = {} THEN <<>> ELSE LET x == CHOOSE x \in T : TRUE IN <<x>> \o SetSeq(T \ {x})
 \* ---- objects
 KA == Chars("a")  KB == Chars("b")  KC == Chars("c")
 Keys == {KA, KB, KC}
@@ -39,6 +51,35 @@ NumDomain == [i \in 1..45 |-> Num(i - 23, 4, 0)] \o <<Num(1, 1, 53), Num(-1, 1, 
 \* ---- num()
 NumbStrings == <<"", "0", "5", "-3", "2.5", "1e2", "10", "9", " 1", "1 ", "abc", "5x", "-0", "+7", ".5", "5.", "1E3", "2e-2",
                  ".", "-", "e5", "1e", "1.2.3", "--1", "0.125">>
+
+\* ---- num() on long digit strings (family "numbig")
+\* little-endian digit sequences (as JqValue.MulDig): + 1 and - 1
+RECURSIVE IncLE(_)
+IncLE(ds) == IF ds = <<>> THEN <<1>> ELSE IF Head(ds) < 9 THEN <<Head(ds) + 1>> \o Tail(ds) ELSE <<0>> \o IncLE(Tail(ds))
+RECURSIVE DecLE(_)
+DecLE(ds) == IF Head(ds) > 0 THEN <<Head(ds) - 1>> \o Tail(ds) ELSE <<9>> \o DecLE(Tail(ds))       \* ds > 0
+RECURSIVE TrimLE(_)
+TrimLE(ds) == IF Len(ds) > 1 /\ ds[Len(ds)] = 0 THEN TrimLE(SubSeq(ds, 1, Len(ds) - 1)) ELSE ds    \* no leading zero
+TextLE(ds) == DigText(Rev(TrimLE(ds)))
+Pow2LE(k) == MulPow(<<1>>, 2, k)
+Pow10LE(k) == [i \in 1..(k + 1) |-> IF i = k + 1 THEN 1 ELSE 0]
+BigExps2 == <<31, 32, 53, 62, 63, 64, 70>>
+BigExps10 == <<1, 2, 5, 9, 10, 15, 16, 17, 18, 19, 20, 21, 22>>
+BigBasesLE == [i \in 1..Len(BigExps2) |-> Pow2LE(BigExps2[i])] \o [i \in 1..Len(BigExps10) |-> Pow10LE(BigExps10[i])]
+\* per base b: b - 1, b, b + 1
+BigTexts == [i \in 1..(3 * Len(BigBasesLE)) |->
+               LET b == BigBasesLE[(i + 2) \div 3] IN
+               CASE i % 3 = 1 -> TextLE(DecLE(b)) [] i % 3 = 2 -> TextLE(b) [] OTHER -> TextLE(IncLE(b))]
+\* decorations that keep the text numeric: <<prefix, negative, leading zeros>> and <<suffix, fraction digits, exponent>>
+BigPrefixes == << <<"", FALSE, <<>> >>, <<"-", TRUE, <<>> >>, <<"+", FALSE, <<>> >>, <<"0", FALSE, <<"0">> >>, <<"-00", TRUE, <<"0", "0">> >> >>
+BigSuffixes == << <<"", <<>>, 0>>, <<".", <<>>, 0>>, <<".0", <<"0">>, 0>>, <<"e0", <<>>, 0>>, <<"e1", <<>>, 1>>, <<"E-1", <<>>, -1>>, <<".5", <<"5">>, 0>>,
+                  <<"e+2", <<>>, 2>>, <<".50e1", <<"5", "0">>, 1>> >>
+\* decorations that make it non-numeric
+BadDecor == << <<"", "e">>, <<"", "e+">>, <<"", "..">>, <<"", " ">>, <<"", "x">>, <<"--", "">>, <<" ", "">>, <<"", "e1.5">>, <<"+-", "">> >>
+NBigDecor == Len(BigPrefixes) * Len(BigSuffixes)
+BigText(i, j) ==                         \* j <= NBigDecor: a numeric decoration; beyond: a bad one
+  IF j <= NBigDecor THEN Chars(BigPrefixes[((j - 1) % Len(BigPrefixes)) + 1][1]) \o BigTexts[i] \o Chars(BigSuffixes[((j - 1) \div Len(BigPrefixes)) + 1][1])
+  ELSE Chars(BadDecor[j - NBigDecor][1]) \o BigTexts[i] \o Chars(BadDecor[j - NBigDecor][2])
 
 \* ---- calls outside the documented contract
 Methods == <<"length", "upper", "lower", "split", "floor", "ceil", "round", "pluck">>
@@ -64,7 +105,10 @@ None == <<>>
 Init ==
   /\ done = FALSE /\ b = None
   /\ \/ fam = "split" /\ a \in SymSeqs(MaxLen)
-     \/ fam = "str" /\ a \in SymSeqs(MaxLen)
+     \/ fam = "str" /\ a \in CaseSeqs(CaseLen)
+     \/ fam = "casetab" /\ a = 0
+     \/ fam = "pluckw" /\ a \in SUBSET Keys
+     \/ fam = "numbig" /\ a \in 1..Len(BigTexts)
      \/ fam = "num" /\ a \in 1..Len(NumDomain)
      \/ fam = "pluck" /\ a \in SUBSET Keys
      \/ fam = "proto" /\ a \in 1..Len(ProtoLists)
@@ -74,6 +118,8 @@ Next ==
   /\ ~done /\ done' = TRUE /\ UNCHANGED <<fam, a>>
   /\ CASE fam = "split" -> b' \in SymSeqs(2)
        [] fam = "pluck" -> b' \in SeqsUpTo(Keys, 3)
+       [] fam = "pluckw" -> b' \in SeqsUpTo(Keys, 2) \X {"copy", "recv"} \X Keys \X MemberWrites     \* <<key list, written object, written key, write>>
+       [] fam = "numbig" -> b' \in 1..(NBigDecor + Len(BadDecor))
        [] fam = "call" -> b' \in (IF a <= Len(Methods) THEN 1..Len(Receivers) ELSE {0}) \X (1..Len(ArgLists))
        [] OTHER -> b' = None
 
@@ -106,16 +152,38 @@ SplitLaws(ss, seps) ==
   /\ sep = <<>> => ps = ss                     \* the characters: exactly the symbols the string was built from
   /\ Len(sep) > Len(s) => ps = <<s>>
 
+RECURSIVE FoldLen(_)
+FoldLen(ss) == IF ss = <<>> THEN 0 ELSE Len(Head(ss)) + FoldLen(Tail(ss))
+\* ss: a sequence of characters of CaseSymbols
 StrLaws(ss) ==
-  LET s == Bytes(ss) IN
-  /\ StrLen(s) = Len(ss) + Cardinality({i \in 1..Len(ss) : ss[i] = E9})
-  /\ Len(Upper(s)) = Len(s) /\ Len(Lower(s)) = Len(s)
-  /\ Upper(Upper(s)) = Upper(s) /\ Lower(Lower(s)) = Lower(s)
-  /\ Lower(Upper(s)) = Lower(s) /\ Upper(Lower(s)) = Upper(s)
-  /\ \A i \in 1..Len(s) : s[i] \notin {"a", "B"} => Upper(s)[i] = s[i] /\ Lower(s)[i] = s[i]
-  /\ \A i \in 1..Len(s) : s[i] = "a" => Upper(s)[i] = "A" /\ Lower(s)[i] = "a"
-  /\ \A i \in 1..Len(s) : s[i] = "B" => Upper(s)[i] = "B" /\ Lower(s)[i] = "b"
+  LET s == Bytes(ss)  u == Upper(s)  l == Lower(s) IN
+  /\ StrLen(s) = Len(s) /\ Len(s) = FoldLen(ss)                   \* bytes, not characters
   /\ CharsOf(s) = ss
+  \* character by character, whatever the neighbours are
+  /\ u = FlattenSeq([i \in 1..Len(ss) |-> Upper(ss[i])]) /\ l = FlattenSeq([i \in 1..Len(ss) |-> Lower(ss[i])])
+  /\ Len(CharsOf(u)) = Len(ss) /\ Len(CharsOf(l)) = Len(ss)
+  /\ Upper(u) = u /\ Lower(l) = l
+  /\ HB("CD85") \notin Range(ss) => Lower(u) = l /\ Upper(l) = u          \* (U+0345 goes up to U+0399, which comes down to U+03B9)
+  /\ \A i \in 1..Len(ss) :
+        /\ ss[i] = <<"a">> => CharsOf(u)[i] = <<"A">> /\ CharsOf(l)[i] = <<"a">>
+        /\ ss[i] = <<"B">> => CharsOf(u)[i] = <<"B">> /\ CharsOf(l)[i] = <<"b">>
+        /\ ss[i] \in {<<"1">>, HB("E4B896")} => CharsOf(u)[i] = ss[i] /\ CharsOf(l)[i] = ss[i]
+        /\ ss[i] = HB("C785") => CharsOf(u)[i] = HB("C784") /\ CharsOf(l)[i] = HB("C786")      \* the titlecase digraph changes both ways
+        /\ ss[i] = HB("E285B7") => CharsOf(u)[i] = HB("E285A7") /\ CharsOf(l)[i] = ss[i]
+        /\ ss[i] = HB("E292B6") => CharsOf(u)[i] = ss[i] /\ CharsOf(l)[i] = HB("E29390")
+        /\ ss[i] = HB("CD85") => CharsOf(u)[i] = HB("CE99") /\ CharsOf(l)[i] = ss[i]
+\* the table is closed and consistent: images are listed, upper case letters are fixed by Upper, lower case ones by
+\* Lower, every row's images map to each other, and no listed character is ASCII or caseless
+CaseTableLaws ==
+  /\ \A r \in CaseTable :
+        /\ CaseRows(r[1]) = {r}                                            \* one row per character
+        /\ CaseRows(r[2]) # {} /\ CaseRows(r[3]) # {}
+        /\ UpperChar(r[2]) = r[2] /\ LowerChar(r[3]) = r[3]
+        /\ UpperChar(r[3]) = r[2] /\ (LowerChar(r[2]) = r[3] \/ r[1] = HB("CD85"))     \* (U+0345: up to U+0399, which comes down to U+03B9)
+        /\ Len(r[1]) \in 2..4 /\ CharsOf(r[1]) = <<r[1]>> /\ r[1] \notin Caseless
+  /\ \A c \in Caseless : UpperChar(c) = c /\ LowerChar(c) = c
+  /\ \A c \in CaseSymbols : Len(c) > 1 => (c \in Caseless \/ CaseRows(c) # {})
+  /\ \E r \in CaseTable : r[2] # r[1] /\ r[3] # r[1]                       \* a character that is neither its upper nor its lower form
 
 Half == Num(1, 2, 0)
 AbsNum(x) == IF x.n < 0 THEN Neg(x) ELSE x
@@ -157,11 +225,65 @@ NumbLaws(i) ==
   /\ r.k \in {"num", "null"}
   /\ (r.k = "num") = ParseNum(s).ok
   /\ r.k = "num" => r = NumOf(VStr(s))
+  /\ ParseDec(s).ok = ParseNum(s).ok /\ (ParseNum(s).ok => DecAsNum(ParseDec(s)) = r)      \* the two readings of the grammar agree
   /\ r.k = "num" /\ r.d = 1 /\ Len(NumText(r)) <= 8 => NumBuiltin(VStr(NumText(r))) = r     \* text of a dyadic number reads back
 NumbAnchors ==
   /\ NumBuiltin(S("2.5")) = Num(5, 2, 0) /\ NumBuiltin(S("1e2")) = I(100) /\ NumBuiltin(S("-0")) = NegZero /\ NumBuiltin(S(".5")) = Num(1, 2, 0)
   /\ NumBuiltin(S("5.")) = I(5) /\ NumBuiltin(S("2e-2")) = Num(1, 50, 0) /\ NumBuiltin(S("0.125")) = Num(1, 8, 0) /\ NumBuiltin(S("+7")) = I(7)
   /\ \A t \in {"", " 1", "1 ", "abc", "5x", ".", "-", "e5", "1e", "1.2.3", "--1"} : NumBuiltin(S(t)) = VNull
+
+\* --- a write through the copy never reaches the receiver, a write through the receiver never reaches the copy
+PluckWriteLaws(ks, keys, target, wkey, w) ==
+  LET o == ObjOver(ks)
+      r == PluckH([i \in {1} |-> o], 1, keys)
+      tid == IF target = "copy" THEN r.id ELSE 1
+      oid == IF target = "copy" THEN 1 ELSE r.id
+      h2 == WriteH(r.heap, tid, wkey, w)
+      old == OldOf(r.heap[tid], wkey)
+  IN
+  /\ DOMAIN h2 = DOMAIN r.heap                                     \* no object appears or disappears
+  /\ h2[oid] = r.heap[oid]                                         \* the other object is untouched
+  /\ DOMAIN h2[tid] = DOMAIN r.heap[tid] \cup {wkey}
+  /\ \A key \in DOMAIN h2[tid] \ {wkey} : h2[tid][key] = r.heap[tid][key]
+  /\ h2[tid][wkey] =
+       (CASE w = "set" -> I(99)
+          [] old = I(1) -> (IF w \in {"add", "postinc", "preinc"} THEN I(2) ELSE Zero)
+          [] old = S("s") -> (CASE w = "add" -> S("s1") [] w \in {"postinc", "preinc"} -> I(1) [] OTHER -> I(-1))
+          [] OTHER -> (IF w \in {"add", "postinc", "preinc"} THEN I(1) ELSE I(-1)))            \* an array, or no member at all
+  /\ old \in {I(1), S("s"), VArr(1), VNull}
+
+\* --- long digit strings
+RECURSIVE HalveBE(_, _)
+HalveBE(ds, carry) ==                        \* big-endian digits (numbers) of an even number, divided by two
+  IF ds = <<>> THEN <<>> ELSE <<(10 * carry + Head(ds)) \div 2>> \o HalveBE(Tail(ds), (10 * carry + Head(ds)) % 2)
+RECURSIVE HalveTimes(_, _)
+HalveTimes(ds, k) == IF k = 0 THEN ds ELSE HalveTimes(HalveBE(ds, 0), k - 1)
+DigitNums(t) == [i \in 1..Len(t) |-> DigitVal(t[i])]
+RECURSIVE StripNumZeros(_)
+StripNumZeros(ds) == IF Len(ds) > 1 /\ Head(ds) = 0 THEN StripNumZeros(Tail(ds)) ELSE ds
+BigBaseLaws ==
+  /\ \A i \in 1..Len(BigExps2) :
+        LET k == BigExps2[i]  t == BigTexts[3 * i - 1] IN
+        /\ t = ExactText(Num(1, 1, k))                                                 \* the text the C05 model prints for 2^k
+        /\ StripNumZeros(HalveTimes(DigitNums(t), k)) = <<1>>                              \* halved k times it is 1
+        /\ DigitVal(t[Len(t)]) % 2 = 0 /\ DigitVal(BigTexts[3 * i - 2][Len(t)]) % 2 = 1
+        /\ TextLE(IncLE(DecLE(Pow2LE(k)))) = t /\ TextLE(DecLE(IncLE(Pow2LE(k)))) = t
+  /\ BigTexts[3 * 5 - 1] = Chars("9223372036854775808") /\ BigTexts[3 * 5 - 2] = Chars("9223372036854775807")
+  /\ BigTexts[3 * 3 - 1] = Chars("9007199254740992") /\ BigTexts[3 * 3] = Chars("9007199254740993")
+  /\ BigTexts[3 * (Len(BigExps2) + 10)] = Chars("10000000000000000001") /\ BigTexts[3 * (Len(BigExps2) + 10) - 2] = Chars("9999999999999999999")
+  /\ \A i \in 1..Len(BigTexts) : \A j \in 1..Len(BigTexts[i]) : BigTexts[i][j] \in Digit
+  /\ \A i \in 1..Len(BigTexts) : BigTexts[i][1] # "0" \/ BigTexts[i] = <<"0">>
+  /\ ((1..23) \ {4, 7, 8, 12, 13, 14}) \subseteq {Len(BigTexts[i]) : i \in 1..Len(BigTexts)}
+NumBigLaws(i, j) ==
+  LET t == BigText(i, j)  p == ParseDec(t) IN
+  IF j > NBigDecor THEN ~p.ok /\ NumBuiltinDec(VStr(t)) = VNull
+  ELSE LET pre == BigPrefixes[((j - 1) % Len(BigPrefixes)) + 1]  suf == BigSuffixes[((j - 1) \div Len(BigPrefixes)) + 1] IN
+       /\ p.ok /\ p.neg = pre[2]
+       /\ p.ds = StripZeros(pre[3] \o BigTexts[i] \o suf[2])
+       /\ p.e10 = suf[3] - Len(suf[2])
+       /\ NumBuiltinDec(VStr(t)).k = "dec"
+       \* both readings of the grammar agree wherever the 32-bit one can be evaluated
+       /\ Len(p.ds) <= 8 => ParseNum(t).ok /\ ParseNum(t).v = DecAsNum(p)
 
 CallName(i) == IF i <= Len(Methods) THEN Methods[i] ELSE Builtins[i - Len(Methods)]
 CallRecv == IF b[1] = 0 THEN VNull ELSE Receivers[b[1]]
@@ -172,9 +294,13 @@ Laws == done =>
     [] fam = "num" -> NumLaws(NumDomain[a])
     [] fam = "pluck" -> PluckLaws(a, b)
     [] fam = "numb" -> NumbLaws(a)
+    [] fam = "pluckw" -> PluckWriteLaws(a, b[1], b[2], b[3], b[4])
+    [] fam = "numbig" -> NumBigLaws(a, b)
     [] OTHER -> TRUE
 ASSUME NumAnchors
 ASSUME NumbAnchors
+ASSUME CaseTableLaws
+ASSUME BigBaseLaws
 
 \* ======================================================================
 \* Vectors
@@ -198,6 +324,16 @@ Vec == done =>
          LET o == ObjOver({KA})  keys == ProtoLists[a]  p == Pluck(o, keys) IN
          Emit([fam |-> fam, obj |-> PairsFrom(o, KeyOrder), keys |-> keys,
                res |-> PairsFrom(p, KeyOrder \o ProtoKeys), len |-> ObjLen(p), olen |-> 1, protokeys |-> ProtoKeys])
+    [] fam = "casetab" ->
+         Emit([fam |-> fam, table |-> SetSeq(CaseTable), caseless |-> SetSeq(Caseless)])
+    [] fam = "pluckw" ->
+         LET o == ObjOver(a)
+             r == PluckH([i \in {1} |-> o], 1, b[1])
+             h2 == WriteH(r.heap, IF b[2] = "copy" THEN r.id ELSE 1, b[3], b[4])
+         IN Emit([fam |-> fam, obj |-> PairsFrom(o, KeyOrder), keys |-> b[1], target |-> b[2], wkey |-> b[3], w |-> b[4],
+                  recvobj |-> PairsFrom(h2[1], KeyOrder), copyobj |-> PairsFrom(h2[r.id], KeyOrder)])
+    [] fam = "numbig" ->
+         Emit([fam |-> fam, s |-> BigText(a, b), res |-> NumBuiltinDec(VStr(BigText(a, b)))])
     [] fam = "numb" ->
          Emit([fam |-> fam, s |-> Chars(NumbStrings[a]), res |-> NumBuiltin(S(NumbStrings[a]))])
     [] fam = "call" ->
